@@ -2,6 +2,7 @@ import Tw.Model.Conn6
 import Tw.Model.Conn7
 import Tw.Proofs.Conn6
 import Tw.Proofs.Conn7
+import Tw.Model.OnlineNet
 
 /-!
 # C02 — the connection makes progress: every call returns, the deadline is finite
@@ -20,8 +21,14 @@ the repair).
 0.7's `PendingConnect` it is false (defect D23, open): the full statement is `C02_deadline_full`,
 the theorem is `conn7_deadline_finite_partial`, the counterexample `conn7_deadline_witness`.
 
-(c) Progress under a fair suffix is stated in `C02_progress_full` over the two-endpoint system of
-`Props/C01`; what is proved of it is listed there.
+(c) **Progress under a fair suffix** is stated in full as `C02_progress_full` over the two-endpoint
+system of `Tw/Model/OnlineNet.lean` (`fairRound`: both sides resend and flush, every datagram of the
+round is delivered once, in order).  Proved of it: `progress_in_order_delivery_partial` — a packet
+that carries exactly the receiver's next `m` chunks in order (as a resend builds it) advances the
+receiver by exactly `m` and hands over exactly those payloads, with no window assumption — and
+`fair_round_demo` (a lossy prefix followed by two fair rounds reaches quiescence; computed).  The
+ranking-function argument (handshake phase, undelivered, unacknowledged, queued) is not proved; the
+`C02/not-quiescent` oracle checks quiescence after a fair suffix on the implementation.
 -/
 namespace Tw.Props.C02
 open Tw.Conn Tw.Time
@@ -131,7 +138,73 @@ theorem conn7_deadline_witness : ¬ C02_deadline_full := by
     ⟨.pendingConnect 7, .inactive⟩ [{ sent := [.control 0 5 (.token 7)] }] rfl (by decide)
   exact this rfl
 
+/-! ## (c) progress under a fair suffix -/
+
+/-- the full progress claim for the online phase: from every reachable state, a bounded number of fair
+rounds (the bound may depend on the amount queued) reaches quiescence -/
+def C02_progress_full : Prop :=
+  ∀ (cfg : Cfg), cfg.Ok → ∀ (ms : List Tw.OnlineNet.Move) (s : Tw.OnlineNet.Sys), Tw.OnlineNet.run cfg .init ms = some s →
+    ∃ k s', k ≤ 3 + 2 * ((s.ep true).resendQueue.length + (s.ep false).resendQueue.length) ∧
+      Tw.OnlineNet.fairRounds cfg k s = some s' ∧ Tw.OnlineNet.quiescent s'
+
+/-- the chunks of a packet are exactly the sender's chunks `d, d+1, …, d+m-1` in order (non-vital
+chunks may be interleaved) — the shape `resend` gives a packet -/
+inductive NextChunks (sub : List Bytes) : Nat → List Chunk → Nat → Prop where
+  | nil (d : Nat) : NextChunks sub d [] 0
+  | nonvital (d m : Nat) (data : Bytes) (cs : List Chunk) : NextChunks sub d cs m →
+      NextChunks sub d (⟨none, data⟩ :: cs) m
+  | vital (d m : Nat) (r : Bool) (data : Bytes) (cs : List Chunk) : sub[d]? = some data →
+      NextChunks sub (d + 1) cs m → NextChunks sub d (⟨some ((d + 1) % 1024, r), data⟩ :: cs) (m + 1)
+
+/-- **in-order delivery makes full progress**: a receiver that has been handed `d` chunks and is fed a
+packet carrying exactly the next `m` chunks accepts all of them — its ack advances to `d + m`, it is
+handed exactly those payloads, and it does not ask for a resend because of this packet -/
+theorem progress_in_order_delivery_partial (sub : List Bytes) (cs : List Chunk) (d m : Nat) (rr : Bool)
+    (h : NextChunks sub d cs m) :
+    receiveEager (d % 1024) rr cs = ((d + m) % 1024, rr) ∧
+    Tw.OnlineNet.vitalPayloads (receiveLazy (d % 1024) cs) = (sub.drop d).take m := by
+  induction h generalizing rr with
+  | nil d => simp [receiveEager, receiveLazy, Tw.OnlineNet.vitalPayloads]
+  | nonvital d m data cs _ ih =>
+    obtain ⟨h1, h2⟩ := ih rr
+    exact ⟨by simpa [receiveEager] using h1, by simpa [receiveLazy, Tw.OnlineNet.vitalPayloads] using h2⟩
+  | vital d m r data cs hd _ ih =>
+    have hacc : seqNext (d % 1024) = (d + 1) % 1024 := by rw [seqNext_val]; omega
+    have h1 : (seqUpdate (d % 1024) ((d + 1) % 1024)).2 = .current := (seqUpdate_accept_snd _ _).mpr hacc
+    have h2 : (seqUpdate (d % 1024) ((d + 1) % 1024)).1 = (d + 1) % 1024 := by
+      rw [seqUpdate_accept_fst, if_pos hacc]
+    obtain ⟨i1, i2⟩ := ih rr
+    have hds : d < sub.length := (List.getElem?_eq_some_iff.mp hd).1
+    constructor
+    · simp only [receiveEager, h1, h2]
+      have : (rr || (SeqOrd.current != SeqOrd.current)) = rr := by simp
+      rw [this, i1]
+      congr 2; omega
+    · simp only [receiveLazy, h1, h2, if_true, Tw.OnlineNet.vitalPayloads]
+      rw [i2, List.drop_eq_getElem_cons hds, List.take_succ_cons]
+      rw [List.getElem?_eq_getElem hds] at hd
+      injection hd with hd
+      rw [hd]
+
+/-- a lossy, reordering prefix followed by fair rounds reaches quiescence (computed on the model) -/
+theorem fair_round_demo :
+    (match Tw.OnlineNet.run Tw.Conn7.cfg .init
+        [.send true [1] true, .send true [2] true, .flush true, .send true [3] true, .send false [7] true,
+         .flush true, .deliver false 1] with
+      | none => false
+      | some s =>
+        match Tw.OnlineNet.fairRounds Tw.Conn7.cfg 3 s with
+        | none => false
+        | some s' =>
+          s'.del false == s'.sub true && s'.del true == s'.sub false &&
+          (s'.ep true).resendQueue.isEmpty && (s'.ep false).resendQueue.isEmpty &&
+          (s'.ep true).packet.chunks.isEmpty && (s'.ep false).packet.chunks.isEmpty) = true := by
+  decide +kernel
+
 /-! ## Non-vacuity -/
+
+example : NextChunks [[5], [6]] 0 [⟨some (1, true), [5]⟩, ⟨none, [9]⟩, ⟨some (2, true), [6]⟩] 2 :=
+  .vital 0 1 true [5] _ rfl (.nonvital 1 1 [9] _ (.vital 1 0 true [6] _ rfl (.nil 2)))
 
 example : ∃ c outs, Tw.Conn6.run .new [({ now := 0 }, .connect)] = .ok (c, outs) ∧
     c.state = .connecting ∧ c.needsTick = .active 500000 := ⟨_, _, rfl, rfl, rfl⟩
